@@ -580,6 +580,22 @@ v('C06', 'silent', 'error_model.py', _LV_OLD, '        has_lever_arm = imu_to_an
 v('C06', 'fire', 'error_model.py', '        if imu_to_antenna_b is not None:\n            mat_nb = transform.mat_from_rph(pva[RPH_COLS])\n            result[:, self.PHI]',
   '        if imu_to_antenna_b is not None and np.all(imu_to_antenna_b):\n            mat_nb = transform.mat_from_rph(pva[RPH_COLS])\n            result[:, self.PHI]',
   'same guard in the position Jacobian')
+# ------------------------------------------------------------------ cho_factor (round-9 seed C11)
+_CF_OLD = ["from scipy.linalg import cholesky, cho_solve, solve_triangular, expm", "    L = cholesky(S, lower=True)\n    K = cho_solve((L, True), HP, overwrite_b=True).T", "            solve_triangular(L, e, lower=True))"]
+v('C11 C07', 'fire', 'kalman.py', _CF_OLD, ["from scipy.linalg import cho_factor, cho_solve, solve_triangular, expm", "    c, lower = cho_factor(S)\n    K = cho_solve((c, lower), HP, overwrite_b=True).T", "            solve_triangular(c, e, lower=lower))"],
+  'seeded C11 round 9: cho_factor returns the upper factor, the innovation is whitened by it')
+v('C11 C07', 'silent', 'kalman.py', _CF_OLD, ["from scipy.linalg import cho_factor, cho_solve, solve_triangular, expm", "    c, lower = cho_factor(S, lower=True)\n    K = cho_solve((c, lower), HP, overwrite_b=True).T", "            solve_triangular(c, e, lower=lower))"],
+  'cho_factor asked for the lower factor')
+# ------------------------------------------------------------------ round-9 seeds as patches (must fire)
+vp('C01 C02', 'fire', 'seeded/C01-output-roll-single-arctan/patch.diff', 'round-9 seed C01: output roll by single-argument arctan')
+vp('C04', 'fire', 'seeded/C04-propagation-first-interval-only/patch.diff', 'round-9 seed C04: every interval propagated over the first gap')
+vp('C07', 'fire', 'seeded/C07-sparse-mask-by-column-sum/patch.diff', 'round-9 seed C07: observed states selected by the column sums of H')
+vp('C08', 'fire', 'seeded/C08-stale-process-cache/patch.diff', 'round-9 seed C08: one-entry cache keyed by the argument arrays')
+vp('C13 C05', 'fire', 'seeded/C13-standstill-shortcut-by-tolerance/patch.diff', 'round-9 seed C13: velocity coupling skipped under a tolerance test')
+vp('C16', 'fire', 'seeded/C16-scalar-flag-from-latitude-only/patch.diff', 'round-9 seed C16: single-item form decided by one of two broadcast arguments')
+vp('C17', 'fire', 'seeded/C17-memo-aliased-key/patch.diff', 'round-9 seed C17: memo keyed by the argument array itself')
+vp('C18', 'fire', 'seeded/C18-allclose-same-grid/patch.diff', 'round-9 seed C18: resampling skipped when the indices are allclose')
+vp('C10', 'fire', 'seeded/C10-empty-innovations-shape/patch.diff', 'round-9 seed C10: second dimension of an empty innovation list')
 # ------------------------------------------------------------------ geometry C16 C05 C04 C03 C18
 T = 'transform.py'
 v('C16 C05', 'fire', T, '    rn, _, rp = earth.principal_radii(lla[:, 0], lla[:, 2])\n\n    lla[:, 0] +=',
